@@ -224,30 +224,30 @@ theorem filter_filter_imp {α} {f g : α → Bool} (h : ∀ a, g a = true → f 
   | [] => rfl
   | a :: l => by
     by_cases hf : f a = true
-    · by_cases hg : g a = true <;> simp [List.filter_cons, hf, hg, filter_filter_imp h l]
+    · by_cases hg : g a = true <;> simp [hf, hg, filter_filter_imp h l]
     · have hg : g a = false := by
         cases hga : g a with
         | false => rfl
         | true => exact absurd (h a hga) hf
-      simp [List.filter_cons, hf, hg, filter_filter_imp h l]
+      simp [hf, hg, filter_filter_imp h l]
 
 theorem find?_filter_imp {α} {f g : α → Bool} (h : ∀ a, g a = true → f a = true) :
     ∀ (l : List α), (l.filter f).find? g = l.find? g
   | [] => rfl
   | a :: l => by
     by_cases hf : f a = true
-    · by_cases hg : g a = true <;> simp [List.filter_cons, List.find?_cons, hf, hg, find?_filter_imp h l]
+    · by_cases hg : g a = true <;> simp [hf, hg, find?_filter_imp h l]
     · have hg : g a = false := by
         cases hga : g a with
         | false => rfl
         | true => exact absurd (h a hga) hf
-      simp [List.filter_cons, List.find?_cons, hf, hg, find?_filter_imp h l]
+      simp [hf, hg, find?_filter_imp h l]
 
 theorem any_false_of_filter_nil {α} {f : α → Bool} : ∀ {l : List α}, l.filter f = [] → l.any f = false
   | [], _ => rfl
   | a :: l, h => by
     by_cases hf : f a = true
-    · simp [List.filter_cons, hf] at h
+    · simp [hf] at h
     · simp only [List.filter_cons, hf] at h
       simp [hf, any_false_of_filter_nil h]
 
